@@ -143,3 +143,26 @@ Proof.
   - apply (dtx_okb_mono true (perc_graph g kept) g); [reflexivity|apply perc_edges_sub; assumption|exact Hacc].
   - exact Hinit.
 Qed.
+
+(* ---------------- the rho path without initial_recovereds ---------------- *)
+(* rho (or nothing) given and no initial_recovereds: the sampled set is duplicate-free and inside
+   the graph, so the run is in the domain of the theorems: its rows pass the C04 checker and row 0
+   is (N - n, n, 0) with n = int(round(N * rho)) *)
+Theorem dsir_rho_rows_accepted : forall g R trec ord rho tmin tmax full fuel out,
+  NoDup (gnodes g) -> (forall u v, In u (gnodes g) -> In v (gadj g u) -> In v (gnodes g)) ->
+  perm_oracle ord -> (full = true -> pick_sound R) ->
+  reach (discrete_SIR g R trec ord None None rho tmin tmax full fuel) out ->
+  let n := match rho with None => 1%Z | Some r => d_round_half_even (Qnat (length (gnodes g)) * r) end in
+  dwf_rowsb true (onestep_of trec) g tmin tmax (so_rows (o_sim out)) = true /\
+  exists rest, so_rows (o_sim out) = (tmin, [(order g - n - 0)%Z; n; 0%Z]) :: rest.
+Proof.
+  intros g R trec ord rho tmin tmax full fuel out Hnd Hadj Hord Hpick H. cbv zeta.
+  destruct (dsir_rho g R trec ord None rho tmin tmax full fuel out Hnd H) as [Hn [i0 [Hi0nd [Hi0 [Hlen Hr]]]]].
+  assert (Hwf : wf_inputb g i0 (opt_list None) = true).
+  { apply wf_inputb_intro; try assumption; cbn [opt_list]; try (intros v []); [constructor|intros v _ []]. }
+  destruct (dsir_run _ _ _ _ _ _ _ _ _ _ _ Hwf Hord Hpick Hr) as [K [t [st [rows [hl [tl [Hrun [Hstop [Er _]]]]]]]]].
+  split.
+  - rewrite Er. exact (drun_rows_accepted _ _ _ _ _ _ _ _ _ _ _ _ _ _ Hrun Hstop).
+  - destruct (drun_first _ _ _ _ _ _ _ _ _ _ _ _ _ _ Hrun) as [rest E]. exists rest.
+    rewrite Er, E, (init_status_counts _ i0 _ Hwf). unfold row0_of. cbn [opt_list]. unfold lenZ at 1 3 4. rewrite Hlen. reflexivity.
+Qed.
